@@ -98,6 +98,24 @@ type OnlyMethods struct{ v int }
 func (o OnlyMethods) Value() int   { return o.v }
 func (o *OnlyMethods) Double() int { return 2 * o.v }
 
+// two distinct types that print alike ("main.Local"): declared in different function scopes
+func localA() interface{} {
+	type Local struct {
+		A int
+		B string
+	}
+	return Local{A: 1, B: "la"}
+}
+
+func localB() interface{} {
+	type Local struct {
+		B string
+		X bool
+		A int
+	}
+	return Local{B: "lb", X: true, A: 2}
+}
+
 func handObjects() []interface{} {
 	b := Base{ID: 7, Title: "bt", hid: "h"}
 	top := Top{Mid: Mid{Base: b, Level: 3}, Name: "top", Title: "tt"}
@@ -117,6 +135,7 @@ func handObjects() []interface{} {
 		map[string][]int{"A": {1, 2}},
 		map[string]*Alpha{"A": {A: 7, B: "seven"}},
 		PtrEmbed{Base: nil, Extra: "nil-embedded"}, &PtrEmbed{Base: nil, Extra: "nil-embedded-ptr"},
+		localA(), localB(),
 		// second values of types that already occur above: an answer must come from THIS object
 		OnlyMethods{5}, &OnlyMethods{6}, Gamma{X: 7, Y: 1}, &Gamma{X: 9, Y: 9}, Base{ID: 70, Title: "other"}, &Base{ID: 71}, Top{Name: "top2"}, Alpha{9, "nine", false},
 		Doc{Tracking: Tracking{Stamp: Stamp{ID: "trk", At: 5}, Source: "src"}, Record: Record{ID: "rec", Name: "rname"}, Author: Author{Name: "aname", Mail: "m@x"}, Title: "T", Lang: "en", Pages: 3},
@@ -253,6 +272,7 @@ type c20Op struct {
 	Render bool   `json:"render,omitempty"`
 	Item   bool   `json:"item,omitempty"`      // x['name'] instead of x.name (maps only)
 	Sand   bool   `json:"sandboxed,omitempty"` // the rendered lookup happens inside a sandboxed include
+	Pair   bool   `json:"pair,omitempty"`      // one render looks the name up on a struct pointer AND on a pointer to its first (embedded) field: same address, different types
 }
 
 type c20Sc struct {
@@ -328,6 +348,9 @@ func (propC20) Gen(seed uint64, ex map[string]bool) interface{} {
 					op := c20Op{Obj: pickObj(), Name: pick(r, c20Names), Render: r.P(15), Item: r.P(30)}
 					if op.Render && r.P(35) {
 						op.Sand = true
+					}
+					if r.P(8) {
+						op = c20Op{Obj: 5, Name: pick(r, []string{"Title", "ID", "Level", "Name", "Describe", "Hello", "zzz"}), Render: true, Pair: true}
 					}
 					ops = append(ops, op)
 					seen = append(seen, op)
@@ -406,6 +429,9 @@ func (propC20) Run(scI interface{}) *Outcome {
 					acc = "x['" + op.Name + "']"
 				}
 				body := "{{ " + acc + "|json_encode }}\x00{{ v|json_encode }}"
+				if op.Pair {
+					body = "{{ x." + op.Name + "|json_encode }}{{ y." + op.Name + "|json_encode }}{{ z." + op.Name + "|json_encode }}\x00{{ v|json_encode }}{{ vy|json_encode }}{{ vz|json_encode }}"
+				}
 				if op.Sand {
 					// the same lookup performed inside a sandboxed include (attribute access is not restricted by the policy)
 					inner := fmt.Sprintf("inner_%d_%d", t, i)
@@ -460,7 +486,16 @@ func (propC20) Run(scI interface{}) *Outcome {
 							gerr = fmt.Errorf("template did not parse")
 							return
 						}
-						out, err := tpl.Render(map[string]interface{}{"x": obj, "v": want})
+						rctx := map[string]interface{}{"x": obj, "v": want}
+						if op.Pair {
+							if top, ok := obj.(*Top); ok {
+								// &top, &top.Mid and &top.Mid.Base are the same address with three different types
+								rctx["y"], rctx["z"] = &top.Mid, &top.Mid.Base
+								rctx["vy"], _ = refAttr(&top.Mid, op.Name)
+								rctx["vz"], _ = refAttr(&top.Mid.Base, op.Name)
+							}
+						}
+						out, err := tpl.Render(rctx)
 						gerr = err
 						got = out
 						pr.renders++
